@@ -14,6 +14,10 @@ import (
 var (
 	configFilePath string
 
+	// saveConfigLock serializes SaveConfig, which holds the locks of all options
+	// at once (in no particular order) and writes the config file.
+	saveConfigLock sync.Mutex
+
 	loadedConfigValidationErrors     []*ValidationError
 	loadedConfigValidationErrorsLock sync.Mutex
 )
@@ -62,6 +66,9 @@ func loadConfig(requireValidConfig bool) error {
 // It will acquire a read-lock on the global options registry
 // lock and must lock each option!
 func SaveConfig() error {
+	saveConfigLock.Lock()
+	defer saveConfigLock.Unlock()
+
 	optionsLock.RLock()
 	defer optionsLock.RUnlock()
 
